@@ -92,6 +92,11 @@ pub fn judge(case: &Case, ctx: &mut Ctx) -> Verdict {
         };
         match w.run(&case.source, lang, opts) {
             WorkerReply::Ok(s) => outs.push(s),
+            WorkerReply::ParserHang => {
+                // the parser has not accepted the module within the budget: outside the domain
+                ctx.workers.remove(i);
+                return Verdict::Discard("parser-exceeded-cpu-budget".into());
+            }
             WorkerReply::Hang => {
                 // confirm once in a fresh worker
                 ctx.workers.remove(i);
